@@ -112,3 +112,25 @@ def net_power_ok(m, rel=1e-9):
     that compare gains of two different solves need it to be well defined"""
     app = sum(0.5 * abs(s.voltage * s.current) for s in m.sources)
     return m.power > rel * app
+
+
+def port_amp(m, src):
+    """with several sources the impedance of a port is V / (current caused by ALL sources); a port that carries
+    little current amplifies every admissible difference of the currents by max|I| / |I_port|"""
+    import numpy as np
+    if len(m.sources) < 2:
+        return 1.0
+    imax = float(np.abs(np.array(m.current)).max())
+    return max(1.0, imax / max(abs(src.current), 1e-300))
+
+
+def gain_tol_db(models, tol, base_db=0.01):
+    """tolerance in dB for a gain compared between two solves whose currents may differ by `tol` (relative to the
+    largest current): the radiated field moves by up to 2 tol in power, the normalising net power Re(sum V I*)/2 by
+    tol * apparent / net power - which dominates for reactive feeds and for sources that exchange power"""
+    import math
+    worst = 1.0
+    for m in models:
+        app = sum(0.5 * abs(s.voltage * s.current) for s in m.sources)
+        worst = max(worst, app / m.power if m.power > 0 else 1e30)
+    return max(base_db * tol / 5e-4, 10 * math.log10(1 + tol * (2 + worst)))
